@@ -139,12 +139,16 @@ def pipe_case(c):
         distinct = (npts[0] + npts[1]) % 2 == 1
         S = simdriver.Sim(comm, npts, nprocs, extra=dict(simdriver.DISTINCT_CONSTANTS) if distinct else None)
         f = S.f
-        if electrons != 'chi0':
+        # the magnetic field strength is an optional argument of the solver (default 1): other values on some shapes
+        Bf = [1.0, 2.0, 0.5][(npts[0] + 2 * npts[1] + npts[2]) % 3]
+        if electrons != 'chi0' or Bf != 1.0:
             from pygyro.poisson.poisson_solver import QuasiNeutralitySolver
             if electrons == 'chi1':
-                S.QN = QuasiNeutralitySolver(f.eta_grid[:3], 7, f.getSpline(0), S.constants, chi=1)
+                S.QN = QuasiNeutralitySolver(f.eta_grid[:3], 7, f.getSpline(0), S.constants, chi=1, B=Bf)
+            elif electrons == 'chi0':
+                S.QN = QuasiNeutralitySolver(f.eta_grid[:3], 7, f.getSpline(0), S.constants, chi=0, B=Bf)
             else:
-                S.QN = QuasiNeutralitySolver(f.eta_grid[:3], 7, f.getSpline(0), S.constants, adiabaticElectrons=False)
+                S.QN = QuasiNeutralitySolver(f.eta_grid[:3], 7, f.getSpline(0), S.constants, adiabaticElectrons=False, B=Bf)
         tl.laws = {'dense': 0.0, 'round': 0.0, 'herm': 0.0, 'ireal': 0.0, 'zero': 0, 'n_f': 0, 'n_i': 0, 'n_real_in': 0, 'n_herm_in': 0}
         f.setLayout('v_parallel')
         L = f.getLayout(f.currentLayout)
@@ -202,7 +206,7 @@ def pipe_case(c):
                              'table': np.array(S.density._fEq, copy=True)}
             # the quasi-neutrality equation the solver is configured with: a plain DiffEqSolver given the coefficient
             # functions of the documented equation, written out from the constants (closed forms, no call into initialiser_funcs):
-            #   -phi'' - (1/r + n0'/n0) phi' + phi/Te + m^2 phi/r^2 = rho/n0 (adiabatic electrons; without them no phi/Te term)
+            #   -phi'' - (1/r + n0'/n0) phi' + B^2 phi/Te + m^2 phi/r^2 = B^2 rho/n0 (adiabatic electrons; without them no phi/Te term)
             from pygyro.poisson.poisson_solver import DiffEqSolver
             c0 = S.constants
 
@@ -214,12 +218,12 @@ def pipe_case(c):
 
             def dn_(r):
                 return -c0.kN0 * (1.0 - np.tanh((r - c0.rp) / c0.deltaRN0) ** 2)
-            kw = dict(drFactor=lambda r: -(1 / r + dn_(r)), ddThetaFactor=lambda r: -1 / r ** 2, rhoFactor=lambda r: 1.0 / n0_(r), lNeumannIdx=[0])
+            kw = dict(drFactor=lambda r: -(1 / r + dn_(r)), ddThetaFactor=lambda r: -1 / r ** 2, rhoFactor=lambda r: Bf * Bf / n0_(r), lNeumannIdx=[0])
             if electrons != 'kinetic':
-                kw['rFactor'] = lambda r: 1.0 / te_(r)
+                kw['rFactor'] = lambda r: Bf * Bf / te_(r)
             ref = DiffEqSolver(7, f.getSpline(0), npts[0], npts[1], **kw)
             out['solver']['ref_mats'] = {k: getattr(ref, k).toarray() for k in ('_massMatrix', '_k2PhiPsi', '_PhiPsi', '_dPhidPsi', '_dPhiPsi', '_stiffnessMatrix')}
-            out['solver']['constants'] = 'siblings-distinct' if distinct else 'defaults'
+            out['solver']['constants'] = ('siblings-distinct' if distinct else 'defaults') + (', B=%g' % Bf if Bf != 1.0 else '')
         return out
 
     try:
